@@ -2,7 +2,7 @@
 from vf.driver import contract_units
 
 LEVEL = "other"
-MODULES = ["contracts.c_access", "contracts.c_engine", "contracts.c_request", "contracts.c_lock"]
+MODULES = ["contracts.c_access", "contracts.c_engine", "contracts.c_request", "contracts.c_lock", "contracts.c_utils", "contracts.c_primitives", "contracts.c_session", "contracts.c_auth"]
 EXPLANATION = ("No interleaving is executed.  Decided here: the discipline from which serial equivalence "
                "follows GIVEN that threading.RLock provides mutual exclusion: the _synchronize wrapper "
                "runs the wrapped function entirely inside the lock (contract on the real wrapper), "
